@@ -31,6 +31,76 @@ import (
 
 const c05Sep = " @ "
 
+// c05Canon is evCanon plus a canonical form of ERROR OBJECTS (the maps `except … as e` binds), so that programs
+// which keep one in a variable stay comparable: message text, position, source name and trace are printed as the
+// placeholders ~E ~I ~S ~T (the model does not know them), the detail as ~D unless the error was raised with
+// raise(type, detail, data) (then it is the given text and a "data" entry exists). A Go int (only pos / line
+// of an error object are ints, ECAL numbers are float64) prints as ~I everywhere.
+func c05Canon(v interface{}, d int) string {
+	if d == 0 {
+		return "DEEP"
+	}
+	switch x := v.(type) {
+	case int:
+		return "~I"
+	case []interface{}:
+		p := make([]string, len(x))
+		for i, e := range x {
+			p[i] = c05Canon(e, d-1)
+		}
+		return "[" + strings.Join(p, " ") + "]"
+	case map[interface{}]interface{}:
+		isErr := false
+		if es, ok := x["error"].(string); ok {
+			_, l1 := x["line"].(int)
+			_, l2 := x["pos"].(int)
+			if strings.HasPrefix(es, "ECAL error in ") && l1 && l2 {
+				isErr = true
+			} else if t, ok := x["type"].(string); ok && t == "UnexpectedError" {
+				isErr = true
+			}
+		}
+		_, raised := x["data"]
+		p := make([]string, 0, len(x))
+		for k, e := range x {
+			val := c05Canon(e, d-1)
+			if ks, ok := k.(string); ok && isErr {
+				switch ks {
+				case "error":
+					val = "~E"
+				case "source":
+					val = "~S"
+				case "trace":
+					val = "~T"
+				case "detail":
+					if !raised {
+						val = "~D"
+					}
+				}
+			}
+			p = append(p, c05Canon(k, d-1)+":"+val)
+		}
+		sort.Strings(p)
+		return "{" + strings.Join(p, " ") + "}"
+	}
+	return evCanonD(v, d)
+}
+
+func c05Setup() {
+	evSetup()
+	registerX("mark", func(args []interface{}) (interface{}, error) {
+		parts := make([]string, len(args))
+		for i, a := range args {
+			parts[i] = c05Canon(a, evCanonDepth)
+		}
+		evLog.add("m" + strings.Join(parts, ","))
+		if len(args) > 0 {
+			return args[0], nil
+		}
+		return nil, nil
+	})
+}
+
 func c05Outcome(vs parser.Scope, src string) string {
 	erp := evNewProvider()
 	ast, err := parser.ParseWithRuntime("t", src, erp)
@@ -44,7 +114,7 @@ func c05Outcome(vs parser.Scope, src string) string {
 	if err != nil {
 		return c04StripPos(evErr(err))
 	}
-	return "OK " + evCanon(res)
+	return "OK " + c05Canon(res, evCanonDepth)
 }
 
 func c05Run(payload string) string {
@@ -58,7 +128,7 @@ func c05Run(payload string) string {
 	obj := scope.ToObject(vs)
 	items := make([]string, 0, len(obj))
 	for k, v := range obj {
-		items = append(items, evCanonD(k, evCanonDepth-1)+":"+evCanonD(v, evCanonDepth-1))
+		items = append(items, c05Canon(k, evCanonDepth-1)+":"+c05Canon(v, evCanonDepth-1))
 	}
 	sort.Strings(items)
 	return strings.Join(outs, ";") + ";G " + strings.Join(items, " ") + ";LOG " + evLog.String()
@@ -85,6 +155,9 @@ var c05Shapes = []struct {
 	}},
 	{"except", func(o, in string) string {
 		return "try {\nraise(\"E\")\n} except {\n" + o + "\n" + in + "\n}"
+	}},
+	{"otherwise", func(o, in string) string {
+		return "try {\nx.mark(0)\n} except {\nx.mark(9)\n} otherwise {\n" + o + "\n" + in + "\n}"
 	}},
 	{"func twice", func(o, in string) string { return "func f() {\n" + o + "\n" + in + "\n}\nf()\nx.mark(a)\nf()" }},
 	{"func param", func(o, in string) string {
@@ -505,7 +578,7 @@ func (g *c05Rand) program(d int) string {
 func init() {
 	register("C05", &Prop{
 		Timeout: 60 * time.Second,
-		Setup:   evSetup,
+		Setup:   c05Setup,
 		Gen: func(g *Gen) {
 			lz := NewEvLazy(g)
 			emit := func(kind string, prog string, probes ...string) {
@@ -533,6 +606,29 @@ func init() {
 			} {
 				emit("corpus", s, "a[1]", "a", "len(a)")
 			}
+			// review findings (model had differed from the code): one-target destructuring, cyclic / diamond / deep
+			// super graphs, number keys at the edge of int64
+			for _, s := range []string{
+				"[a] := [5]", "let [a] := [5]", "[a] := [1, 2]", "[a] := 7", "[a] := null", "[a] := []", "let [a] := 7\nx.mark(a)",
+				"func f() {\n[a] := [1, 2]\nreturn a\n}\nx.mark(f())\nx.mark(a)", "b := [0]\n[b[0]] := [5]\nx.mark(b)", "[a, b] := [5]", "[] := []",
+				"if true {\nlet [a] := [5]\nx.mark(a)\n}\nx.mark(a)", "for [a] in [[1], [2]] {\nx.mark(a)\n}",
+				"a := {\"k\": 1}\na.super := [a]\no := new(a)\nx.mark(o)",
+				"a := {\"k\": 1}\nb := {\"super\": [a], \"j\": 2}\na.super := [b]\no := new(b)\nx.mark(o)",
+				"a := {\"k\": 1, \"init\": func () {\nx.mark(1)\n}}\na.super := [a]\no := new(a)\nx.mark(o.k)",
+				"a := {\"k\": 1}\na.super := [a, {\"j\": 2}]\ntry {\no := new(a)\n} except as c {\nx.mark(c.type)\n}\nx.mark(o)",
+				"a := {\"k\": 1, \"i\": 1}\nb := {\"super\": [a], \"j\": 2, \"i\": 2}\nc := {\"super\": [a], \"h\": 3, \"i\": 3}\no := {\"super\": [b, c], \"g\": 4}\no := new(o)\nx.mark(o.k, o.j, o.h, o.g, o.i)",
+				"a := {\"k\": 1, \"i\": 1}\nb := {\"super\": [a], \"j\": 2, \"i\": 2}\nc := {\"super\": [a], \"h\": 3, \"i\": 3}\no := {\"super\": [c, b], \"g\": 4}\no := new(o)\nx.mark(o.k, o.j, o.h, o.g, o.i)",
+				"a := {\"k\": 1, \"init\": func (c) {\nthis.ka := c\n}}\nb := {\"super\": [a], \"init\": func (c) {\nsuper[0](c + 1)\nthis.kb := c\n}}\nc := {\"super\": [b], \"init\": func (c) {\nsuper[0](c + 1)\nthis.kc := c\n}}\no := {\"super\": [c], \"init\": func (c) {\nsuper[0](c + 1)\nthis.ko := c\n}}\no := new(o, 1)\nx.mark(o.ka, o.kb, o.kc, o.ko, o.k)",
+				"a := {\"k\": 1, \"init\": func () {\nx.mark(1)\n}}\nb := {\"super\": [a]}\nc := {\"super\": [a]}\no := {\"super\": [b, c], \"init\": func () {\nx.mark(len(super), super[0] == super[1])\nlet f := super[0]\nf()\n}}\no := new(o)",
+				"a := {1: \"x\", 2: {\"k\": 3}, \"m\": func () {\nreturn this[1]\n}}\no := new(a)\nx.mark(o.m(), o[2].k)\no[1] := \"y\"\nx.mark(o.m(), a[1])",
+				"a := {1000000000000000000: 1}\nx.mark(a[\"1000000000000000000\"])\na[\"1000000000000000000\"] := 2\nx.mark(a, len(a))",
+				"a := {9223372036854775807: 1, \"9223372036854775808\": 2}\nx.mark(a[\"9223372036854775807\"], a[\"9223372036854775808\"])\na[\"9223372036854775808\"] := 3\nx.mark(len(a))",
+				"a := {\"-9223372036854775808\": 1, \"-9223372036854775809\": 2, \"+5\": 3, 5: 4, \"005\": 5}\nx.mark(a[\"-9223372036854775808\"], a[\"-9223372036854775809\"], a[\"+5\"], a[\"005\"], a[5])",
+				"a := [1, 2, 3]\nx.mark(a[\"+1\"], a[\"01\"], a[\"-1\"])\na[\"-0\"] := 9\nx.mark(a)\nx.mark(a[\"99999999999999999999\"])",
+				"a := [1, 2, 3]\na[\"9223372036854775807\"] := 1",
+			} {
+				emit("corpus (review)", s, "a", "b", "o")
+			}
 			// (1) scope shape x assignment form x where the name was defined
 			for _, df := range c05Defs {
 				for _, sh := range c05Shapes {
@@ -543,6 +639,25 @@ func init() {
 						inner := "x.mark(a)\n" + as + "\nx.mark(a)"
 						prog := df.global + "\n" + sh.f(df.outer, inner) + "\nx.mark(a, b)"
 						emit("exhaustive scope shape x assignment form x definition place", strings.TrimLeft(prog, "\n"), "a", "b", "c")
+					}
+				}
+			}
+			// (1b) the child scope of an interpolating string literal (one statement per literal, no quotes inside)
+			for _, df := range c05Defs {
+				for _, as := range c05Assigns {
+					if strings.ContainsAny(as, "\n\"'") {
+						continue
+					}
+					for _, pre := range []string{"", "if true {\n", "func f() {\n"} {
+						post := ""
+						if pre != "" {
+							post = "\n}"
+						}
+						if strings.HasPrefix(pre, "func") {
+							post += "\nf()\nf()"
+						}
+						prog := df.global + "\n" + pre + df.outer + "\nc := '{{x.mark(a)}} {{" + as + "}} {{x.mark(a)}}'\nx.mark(a, c)\nc := '{{x.mark(a)}}'" + post + "\nx.mark(a, b)"
+						emit("exhaustive interpolation child scope x assignment form x definition place", strings.TrimLeft(prog, "\n"), "a", "b", "c")
 					}
 				}
 			}
@@ -637,7 +752,7 @@ func init() {
 		Run: c05Run,
 		// harness C05 -tool <program> <probe>… : prints the payload and the result of the real code
 		Tool: func(args []string) int {
-			evSetup()
+			c05Setup()
 			secs := []string{}
 			for _, a := range args {
 				secs = append(secs, evPayload(a))
